@@ -456,6 +456,9 @@ type LoopSpec struct {
 	Invariants []Clause
 	Decreases  Expr
 	Unroll     int
+	Carried    []string // the only locals that may carry a value from one iteration to a later one
+	HasCarried bool
+	CarriedProps []string
 }
 
 type GhostBlock struct {
@@ -536,7 +539,7 @@ var specKeywords = map[string]bool{
 	"decreases": true, "pred": true, "props": true, "safety": true, "inline": true,
 	"trusted": true, "pure": true, "protected": true, "moninv": true, "ghost": true,
 	"axiom": true, "note": true, "params": true, "results": true, "at": true, "havoc": true,
-	"unroll": true, "implements": true, "uses": true, "monghost": true, "persite": true,
+	"unroll": true, "implements": true, "uses": true, "monghost": true, "persite": true, "carried": true,
 }
 
 func loadSpecs(files []string) (*Specs, error) {
@@ -721,6 +724,15 @@ func (sp *Specs) loadFile(path string) error {
 				return err
 			}
 			curLoop.Invariants = append(curLoop.Invariants, c)
+		case "carried":
+			if curLoop == nil {
+				return fail(d, "carried outside loop")
+			}
+			curLoop.HasCarried = true
+			curLoop.Carried = append(curLoop.Carried, strings.Fields(stripComment(d.text))...)
+			if m := propRe.FindStringSubmatch(d.text); m != nil {
+				curLoop.CarriedProps = strings.Fields(m[1])
+			}
 		case "decreases":
 			if curLoop == nil {
 				return fail(d, "decreases outside loop")
